@@ -1245,7 +1245,14 @@ func symConv(dst types.Type, x sym) value {
 		return symFloat{stage: "u2f", src: src}
 	}
 	if kd == types.String {
-		panic("unsupported: string(symbolic integer)")
+		// string(rune) of a symbolic rune: ASCII gives a one-byte string; anything else is
+		// a multi-byte encoding of a symbolic value, outside the engine
+		w, _ := kindWidth(x.kind)
+		// unsigned comparison: negative runes are above 0x80 too
+		if !s.branch(s.mk("bvult", 0, x.t, s.constT(w, 0x80))) {
+			panic(unsupported{"string(rune): non-ASCII symbolic rune"})
+		}
+		return symStr{[]value{symConv(types.Typ[types.Uint8], x)}}
 	}
 	wd, _ := kindWidth(kd)
 	ws, ssigned := kindWidth(x.kind)
